@@ -517,6 +517,10 @@ func vdRun(f []string, loggers logging.LoggerProvider) string {
 			// the peer is known and has streams, but none for this shard pair
 			key = peerStreamKey{targetShard: history.ClusterShardID{ClusterID: 2, ShardID: 9}, sourceShard: history.ClusterShardID{ClusterID: 1, ShardID: 9}}
 		}
+		if peer == "sibling" {
+			// the peer has a live stream for the same source shard and ANOTHER target shard: not this pair's stream
+			key = peerStreamKey{targetShard: history.ClusterShardID{ClusterID: 2, ShardID: 9}, sourceShard: source}
+		}
 		sm.intraMgr.peers["n1"] = &peerState{
 			senders:   map[peerStreamKey]*intraProxyStreamSender{key: {logger: tlog.NewNoopLogger(), shardManager: sm, peerNodeName: "n1", targetShardID: target, sourceShardID: source, sourceStreamServer: srv}},
 			receivers: map[peerStreamKey]*intraProxyStreamReceiver{key: {logger: tlog.NewNoopLogger(), shardManager: sm, peerNodeName: "n1", targetShardID: target, sourceShardID: source, streamClient: cli}},
